@@ -1198,6 +1198,7 @@ V('05.7t', 'C05', '', 'silent', RUN,
   '            except exceptions.ArgumentException:\n                pass',
   '            except (exceptions.ArgumentException,):\n                continue',
   'twin: tuple handler, continue')
+
 VARIANTS = [v for v in VARIANTS if v is not None]
 
 # ------------------------------------------------ rules added after the seeds
@@ -1347,4 +1348,114 @@ V('13.6', 'C13', 'R13a', 'fire', COL,
 V('13.6t', 'C13', '', 'silent', COL,
   '    yielded = False\n    for i, t in enumerate(collection):\n        if (count >= 0 and position <= i < position + count\n                or count < 0 and i >= position):\n            if not yielded:\n                yielded = True\n                yield value\n        else:\n            yield t\n', '    indexed = enumerate(collection)\n    for i, t in indexed:\n        if (count >= 0 and position <= i < position + count\n                or count < 0 and i >= position):\n            yield value\n            break\n        yield t\n    else:\n        return\n    for i, t in indexed:\n        if not (count >= 0 and position <= i < position + count\n                or count < 0 and i >= position):\n            yield t\n',
   'twin: the first loop breaks out, the second continues the same cursor')
+
+# ------------------------------------------- rules added after seed round 3
+V('01.8', 'C01', 'R01f', 'fire', LEX,
+  "    def __init__(self, yaql_operators):\n        self._operators_table = yaql_operators.operators\n",
+  "    _known_symbols = set()\n\n    def __init__(self, yaql_operators):\n        self._operators_table = yaql_operators.operators\n        self._known_symbols.update(\n            r[0] for r in yaql_operators.operators.values())\n",
+  'lexer fills a class-level set: shared by every engine')
+V('01.8t', 'C01', '', 'silent', LEX,
+  "    def __init__(self, yaql_operators):\n        self._operators_table = yaql_operators.operators\n",
+  "    def __init__(self, yaql_operators):\n        self._operators_table = yaql_operators.operators\n        self._known_symbols = set()\n        self._known_symbols.update(\n            r[0] for r in yaql_operators.operators.values())\n",
+  'twin: the set lives on the instance')
+V('02.8', 'C02,C15', 'R02e', 'fire', PAR,
+  "            if p[1] in yaql_operators.operators:\n                alias = this._aliases.get(p.slice[1].type)\n",
+  "            if p[1] in yaql_operators.operators:\n                alias = this._aliases.get(p.slice[1].type)\n                if p[1] == '+' and alias is None:\n                    p[0] = p[2]\n                    return\n",
+  'prefix plus elided by the reduce action')
+V('04.9', 'C04', 'R04e', 'fire', QUE,
+  "    return map(lambda t: operator(t, attribute), collection)",
+  "    return map(lambda t: t.get(attribute.value) if isinstance(\n        t, utils.MappingType) else operator(t, attribute), collection)",
+  'collection attribution answers dictionaries itself')
+V('04.9t', 'C04', '', 'silent', QUE,
+  "    return map(lambda t: operator(t, attribute), collection)",
+  "    return (operator(item, attribute) for item in collection)",
+  'twin: generator expression through the delegate')
+V('04.10', 'C04', 'R04f', 'fire', SYS,
+  "    if len(args) > 0:\n        for i in range(len(lst)):\n            context[args[i]] = lst[i]\n    else:\n        for i, t in enumerate(itertools.chain(lst, sequence), 1):\n            context[str(i)] = t\n",
+  "    for i, t in enumerate(itertools.chain(lst, sequence), 1):\n        context[str(i)] = t\n    for i in range(len(args)):\n        context[args[i]] = lst[i]\n",
+  'named unpack also binds $1..$n')
+V('04.10t', 'C04', '', 'silent', SYS,
+  "    if len(args) > 0:\n        for i in range(len(lst)):\n            context[args[i]] = lst[i]\n    else:\n        for i, t in enumerate(itertools.chain(lst, sequence), 1):\n            context[str(i)] = t\n",
+  "    if not args:\n        for i, t in enumerate(itertools.chain(lst, sequence), 1):\n            context[str(i)] = t\n        return context\n    for name, value in zip(args, lst):\n        context[name] = value\n",
+  'twin: inverted test, early return, zip')
+V('05.8', 'C05', 'R05g', 'fire', RUN,
+  "    for key, a1 in kwargs_mapping1.items():\n        a2 = kwargs_mapping2[key]\n",
+  "    for a1, a2 in zip(kwargs_mapping1.values(), kwargs_mapping2.values()):\n",
+  'keyword parameters paired by position')
+V('05.8t', 'C05', '', 'silent', RUN,
+  "    for key, a1 in kwargs_mapping1.items():\n        a2 = kwargs_mapping2[key]\n",
+  "    for key in kwargs_mapping1:\n        a1 = kwargs_mapping1[key]\n        a2 = kwargs_mapping2.get(key)\n",
+  'twin: keyed lookups spelled differently')
+V('07.12', 'C07', 'R07i', 'fire', UTI,
+  "def is_sequence(obj):\n    return isinstance(obj, collections.abc.Sequence) and not isinstance(\n        obj, str)\n",
+  "def is_sequence(obj):\n    if isinstance(obj, str):\n        return False\n    return isinstance(obj, collections.abc.Sequence) or (\n        hasattr(obj, '__getitem__') and hasattr(obj, '__len__'))\n",
+  'sequence classifier probes for the protocol')
+V('07.12t', 'C07', '', 'silent', UTI,
+  "def is_sequence(obj):\n    return isinstance(obj, collections.abc.Sequence) and not isinstance(\n        obj, str)\n",
+  "def is_sequence(obj):\n    if isinstance(obj, str):\n        return False\n    return isinstance(obj, collections.abc.Sequence)\n",
+  'twin: guard clause')
+V('08.11', 'C08', 'R08i', 'fire', COL,
+  "        it = iter(t)\n        key = next(it)\n        value = next(it)\n",
+  "        key, value = list(t)[:2]\n",
+  'dict() drains every item')
+V('08.11t', 'C08', '', 'silent', COL,
+  "        it = iter(t)\n        key = next(it)\n        value = next(it)\n",
+  "        it = iter(t)\n        key, value = next(it), next(it)\n",
+  'twin: two next() in one statement')
+V('10.8', 'C10', 'R10c', 'fire', 'yaql/__init__.py',
+  "            if engine.options.get('yaql.convertOutputData', True):\n",
+  "            if engine.options.get('yaql.convertOutputData',\n                                  not engine.options.get(\n                                      'yaql.convertSetsToLists', False)\n                                  or True) and engine.options.get(\n                    'yaql.convertInputData', True):\n",
+  'output conversion also switched off by the input switch')
+V('10.8t', 'C10', '', 'silent', 'yaql/__init__.py',
+  "            if engine.options.get('yaql.convertOutputData', True):\n                return utils.convert_output_data(obj, limiter, engine)\n            return obj\n",
+  "            convert = engine.options.get('yaql.convertOutputData', True)\n            if not convert:\n                return obj\n            return utils.convert_output_data(obj, limiter, engine)\n",
+  'twin: inverted')
+V('12.8', 'C12', 'R12h', 'fire', SPE,
+  "                elif arg_name in kwargs:\n                    keyword_args[arg_name] = p\n                    del kwargs[arg_name]\n                elif p.default is NO_DEFAULT:\n                    return None\n                elif arg_position",
+  "                elif kwargs.get(arg_name) is not None:\n                    keyword_args[arg_name] = p\n                    del kwargs[arg_name]\n                elif p.default is NO_DEFAULT:\n                    return None\n                elif arg_position",
+  'null-valued keyword reads as absent')
+V('12.8t', 'C12', '', 'silent', SPE,
+  "                elif arg_name in kwargs:\n                    keyword_args[arg_name] = p\n                    del kwargs[arg_name]\n                elif p.default is NO_DEFAULT:\n                    return None\n                elif arg_position",
+  "                elif arg_name in kwargs:\n                    keyword_args[arg_name] = p\n                    kwargs.pop(arg_name)\n                elif p.default is NO_DEFAULT:\n                    return None\n                elif arg_position",
+  'twin: pop after the membership test')
+V('13.7', 'C13', 'R13c', 'fire', QUE,
+  "    for i, t in enumerate(collection):\n        if t == item:\n            return i\n    return -1\n",
+  "    found = None\n    for i, t in enumerate(collection):\n        if t == item:\n            found = t\n            position = i\n            break\n    if found is None:\n        return -1\n    return position\n",
+  'None as "not found" for a value that may be null')
+V('13.7t', 'C13', '', 'silent', QUE,
+  "    for i, t in enumerate(collection):\n        if t == item:\n            return i\n    return -1\n",
+  "    position = None\n    for i, t in enumerate(collection):\n        if t == item:\n            position = i\n            break\n    if position is None:\n        return -1\n    return position\n",
+  'twin: the sentinel variable holds an index, never a value')
+V('17.9', 'C17,C04,C05', 'R17h', 'fire', CTX,
+  "    def create_child_context(self):\n        return type(self.linked_context)(self)\n",
+  "    def create_child_context(self):\n        return type(self.linked_context)(self.parent)\n",
+  'child of a linked context hangs off the parent')
+V('17.9t', 'C17', '', 'silent', CTX,
+  "    def create_child_context(self):\n        return type(self)(self)\n",
+  "    def create_child_context(self):\n        child = type(self)(self)\n        return child\n",
+  'twin: through a local')
+V('19.8', 'C19', 'R19d', 'fire', REG,
+  "    def repl_func(match):\n        new_context = context.create_child_context()\n        _publish_match(context, match)\n        return repl(new_context)\n",
+  "    last = []\n\n    def repl_func(match):\n        if last and last[0] == match.group():\n            return last[1]\n        new_context = context.create_child_context()\n        _publish_match(context, match)\n        last[:] = [match.group(), repl(new_context)]\n        return last[1]\n",
+  'replacement remembered for a repeated match')
+V('19.9', 'C19', 'R19e', 'fire', STR,
+  "    return separator.join(map(str_delegate, sequence))",
+  "    return separator.join(\n        str(t) if isinstance(t, (int, float)) else str_delegate(t)\n        for t in sequence)",
+  'python str() of numbers, and so of booleans')
+V('19.9t', 'C19', '', 'silent', STR,
+  "    return separator.join(map(str_delegate, sequence))",
+  "    return separator.join(str_delegate(t) for t in sequence)",
+  'twin: generator expression through the delegate')
+V('20.9', 'C20', 'R20e', 'fire', DAT,
+  "    return dt1 < dt2\n",
+  "    return (dt1 - dt2).total_seconds() < 0\n",
+  'ordering through float seconds')
+V('20.9t', 'C20', '', 'silent', DAT,
+  "    return dt1 < dt2\n",
+  "    return dt2 > dt1\n",
+  'twin: mirrored comparison')
+V('20.10', 'C20', 'R20f', 'fire', YTY,
+  "                return value.replace(tzinfo=self.utctz)\n",
+  "                return datetime.datetime(\n                    value.year, value.month, value.day, value.hour,\n                    value.minute, value.second, value.microsecond,\n                    self.utctz)\n",
+  'datetime rebuilt field by field')
 VARIANTS = [v for v in VARIANTS if v is not None]
